@@ -1247,7 +1247,7 @@ def generate(rng, tier):
             cls = CLASSES[i % len(CLASSES)] if i < len(CLASSES) else rng.choice(CLASSES)
             cases.append(_make(rng, ep, cls))
     for kind in ORDER_KINDS:
-        for _ in range(1 if tier == "quick" else 6):
+        for _ in range(1 if tier == "quick" else 4):
             cases.append(_order_case(rng, kind))
     return cases
 
